@@ -6,11 +6,15 @@ from vlib.core import Case
 
 PROP = "C05"
 SPEC_MODE = "oracle"
-KEEP_PREFIX = 2          # `clock` + `load` lines are never removed by the shrinker
+KEEP_PREFIX = 2          # `clock` + first `load` lines are never removed by the shrinker
 SIZES = {"quick": 1500, "thorough": 30000}
 BATCH = 1500
 EXTRA_MODULES = ("Sentinel.Lemmas.Hot", "Sentinel.Lemmas.HotSV", "Sentinel.Lemmas.HotSim")
-RULE = ("cases = one LoadRules (1-3 hotspot QPS rules over 1-2 resources: reject / throttling / a slice of invalid or unsupported ones; "
+RULE = ("30% of the plain cases reload the rules 1-3 times mid-case (identical / changed limits / one rule split into several "
+        "stat-reusable ones / merge / reorder / changed duration-capacity-behaviour / added rule); 3 per 1500 cases are capacity "
+        "cases (`sweep`: 1-10k live values around the effective capacity, explicit ParamsMaxCapacity above / below the derived "
+        "default, then early and late values visited again); otherwise: "
+        "cases = one LoadRules (1-3 hotspot QPS rules over 1-2 resources: reject / throttling / a slice of invalid or unsupported ones; "
         "thresholds, bursts, durations, queueing limits, specific-item tables, param index incl. negative and out of range, param key, "
         "ParamsMaxCapacity 0 (default) or 1..6) followed by 20-160 api.Entry calls whose arguments/attachments are drawn from a pool of 1-9 "
         "values of kinds int,int64,string,bool,float64,struct,nil (pool size both below and above the capacity), batch counts around "
@@ -84,6 +88,78 @@ def show_rule(r):
     return ",".join("%s=%s" % (k, r[k]) for k in ("res", "cb", "idx", "key", "T", "burst", "D", "mq", "cap", "items"))
 
 
+def reload_rules(rng, rules, pool):
+    """the rule set of the next generation: identical / modified limits / split / merge / reorder / changed statistic
+    geometry (duration, capacity, behaviour => fresh) / added rule; returns (new rules, kind)"""
+    rs = [dict(r) for r in rules]
+    kind = rng.choice(["identical", "limits", "limits", "split", "split", "split", "merge", "reorder", "geometry", "add", "param"])
+    r = rng.choice(rs)
+    if kind == "limits":
+        r["T"] = rng.choice([0, 1, 2, 3, 5, 10, r["T"] + 1])
+        if r["cb"] == 0:
+            r["burst"] = rng.choice([0, 1, 3, r["burst"]])
+        else:
+            r["mq"] = rng.choice([0, 5, 500, r["mq"]])
+    elif kind == "split":
+        # one old rule becomes two (or three) stat-reusable ones on other parameters / thresholds
+        for _ in range(rng.choice([1, 1, 2])):
+            c = dict(r)
+            c["idx"] = rng.choice([0, 1, -1, 2])
+            if rng.random() < 0.5:
+                c["T"] = rng.choice([1, 2, 3, r["T"]])
+            if rng.random() < 0.3:
+                r["T"] = rng.choice([1, 2, r["T"] + 1])
+            rs.insert(rng.randrange(len(rs) + 1), c)
+    elif kind == "merge" and len(rs) > 1:
+        rs.remove(r)
+    elif kind == "reorder":
+        rng.shuffle(rs)
+    elif kind == "geometry":
+        f = rng.choice(["D", "cap", "cb"])
+        if f == "D":
+            r["D"] = rng.choice([1, 2, 3])
+        elif f == "cap":
+            r["cap"] = rng.choice([0, 1, 2, 3, 6])
+        else:
+            r["cb"] = 1 - r["cb"] if r["cb"] in (0, 1) else 0
+    elif kind == "add":
+        rs.insert(rng.randrange(len(rs) + 1), gen_rule(rng, r["res"], pool, "reject", False))
+    elif kind == "param":
+        r["idx"] = rng.choice([0, 1, -1])
+    if rng.random() < 0.3:
+        x = rng.choice(rs)
+        x["items"] = "-" if x["items"] != "-" else "%s@%d" % (rng.choice(pool), rng.choice([1, 2, 3]))
+    return rs[:6], kind
+
+
+def capacity_case(rng, cid):
+    """thousands of live values around the cache capacity: explicit ParamsMaxCapacity above / below the derived default
+    min(20000, 4000*D), or none; one request per value, then early and late values are visited again"""
+    D = rng.choice([1, 1, 2])
+    default = min(20000, 4000 * D)
+    above = default + rng.choice([1, 100, 500, 1900])
+    cap = rng.choice([0, above, above, above, default - rng.choice([1, 100, 1000, 3000]), default - rng.choice([1, 100, 1000, 3000]), default])
+    eff = cap if cap > 0 else default
+    lo, hi = min(eff, default), max(eff, default)
+    n = rng.choice([eff - 1, eff, eff, eff + 1, eff + rng.randint(2, 300), (lo + hi) // 2, rng.randint(lo, hi), rng.randint(lo, hi), max(1, lo - rng.randint(1, 50))])
+    n = max(2, n)
+    cb = rng.choice([0, 0, 1])
+    pre = rng.choice(["v:i:", "v:s:k", "v:l:", "v:t:1_"])
+    now = START + rng.randint(0, 10 ** 6)
+    ops = ["clock %d" % now,
+           "load 1 res=r,cb=%d,idx=0,key=-,T=1,burst=0,D=%d,mq=0,cap=%d,items=-" % (cb, D, cap),
+           "sweep r 1 %s 0 %d" % (pre, n)]
+    for _ in range(rng.randint(2, 5)):
+        a = rng.choice([0, 0, max(0, n - eff - 3), max(0, n - eff), n - 5, rng.randint(0, n - 1)])
+        ops.append("sweep r 1 %s %d %d" % (pre, a, min(n + 2, a + rng.randint(1, 40))))
+        if rng.random() < 0.3:
+            ops.append("tick %d" % rng.choice([1, 1000 * D, 1000 * D + 1]))
+    DIST["slice:capacity"] += 1
+    DIST["capacity:" + ("explicit>default" if cap > default else "explicit<default" if 0 < cap < default else "default")] += 1
+    DIST["capacity:live" + (">cap" if n > eff else "<=cap")] += 1
+    return Case(cid, ops, tags=("capacity", "cap=%d" % cap, "n=%d" % n))
+
+
 def gen_case(rng, cid):
     u = rng.random()
     slice_ = "finding" if u < 0.12 else "backwards" if u < 0.14 else "overflow" if u < 0.17 else "invalid" if u < 0.22 else "plain"
@@ -135,7 +211,15 @@ def gen_case(rng, cid):
     main = rng.choice(rules)
     dms = min(max(1, main["D"]) * 1000, 10 ** 7)
     focus = rng.sample(pool, min(len(pool), rng.choice([1, 1, 2, 3, 9])))
-    for _ in range(rng.randint(20, 160)):
+    nent = rng.randint(20, 160)
+    reload_at = set()
+    if slice_ in ("plain", "finding") and rng.random() < 0.3:
+        reload_at = set(rng.sample(range(1, nent), min(nent - 1, rng.choice([1, 1, 2, 3]))))
+    for step in range(nent):
+        if step in reload_at:
+            rules, kind = reload_rules(rng, rules, pool)
+            ops.append("load %d %s" % (len(rules), " ".join(show_rule(r) for r in rules)))
+            DIST["reload:" + kind] += 1
         # time
         if rng.random() < 0.6:
             T = main["T"] if main["T"] > 0 else 1
@@ -163,6 +247,8 @@ def gen_case(rng, cid):
         ops.append("entry %s %d %d %s%d %s" % (res, batch, na, "".join(a + " " for a in args), len(atts), " ".join(atts)))
         ops[-1] = ops[-1].rstrip()
     DIST["slice:" + slice_] += 1
+    if reload_at:
+        DIST["cases-with-reload"] += 1
     caps = [20000 if r["cap"] <= 0 else r["cap"] for r in rules]
     DIST["pool>cap" if any(npool > c for c in caps) else "pool<=cap"] += 1
     for r in rules:
@@ -177,7 +263,11 @@ def gen_case(rng, cid):
 
 
 def gen(ctx, n):
-    return [gen_case(ctx.rng, f"g{ctx.seed}-{i}-{ctx.rng.randrange(10**6)}") for i in range(n)]
+    cases = [gen_case(ctx.rng, f"g{ctx.seed}-{i}-{ctx.rng.randrange(10**6)}") for i in range(n)]
+    # a small fixed slice of capacity cases (thousands of live values): 3 per 1500 generated cases
+    for j in range(max(1, (3 * n) // 1500)):
+        cases.append(capacity_case(ctx.rng, f"cap{ctx.seed}-{j}-{ctx.rng.randrange(10**6)}"))
+    return cases
 
 
 def corpus():
@@ -211,6 +301,15 @@ def nontrivial(case, impl):
     for l in impl:
         op, _, r = l.partition(" => ")
         t = op.split()
+        if t[0] == "sweep":
+            for g in r.split(";"):
+                n_, _, rr = g.partition("x")
+                k = "wait" if "w:" in rr else rr.split("_")[0]
+                DIST["result:" + k] += int(n_)
+                kinds.add(k)
+            vals.update((t[3] + "0", t[3] + "1"))
+            seq.append((tuple(t[1:]), r))
+            continue
         if t[0] != "entry":
             continue
         k = "wait" if " w:" in r else r.split()[0] if r else "none"
